@@ -1,6 +1,8 @@
 """C15 - every computed column with a group suffix has one value per group."""
 from __future__ import annotations
 
+import re
+
 import numpy as np
 
 from mc import harness, popgen, sim
@@ -75,8 +77,83 @@ def task(arg):
     out.sample({"date": date_iso, "population": label, "cases": len(items), "first": items[0][0] if items else None}, limit=1)
     return out.dump()
 
+_GROUP_LEVEL_NAME = re.compile(r"_(" + "|".join(SUPPORTED_GROUPINGS) + r")(_|$)")
+
+
+def task_rules(names):
+    """Every hand-written group-level rule of every validity period, evaluated directly: changing an individual-level argument (one
+    that members of a group may differ in) while all group-level arguments stay fixed must not change the value - otherwise two members of
+    the same group get different values.  Typed argument alphabets, base tuple + single + pairwise deviations (as in C03's synthetic stage)."""
+    import datetime
+    import inspect
+
+    from mc.checks.c03 import SYN, _same_value, synthetic_tuples
+    from _gettsim.functions_loader import load_internal_functions
+    from _gettsim.interface import _round_and_partial_parameters_to_functions
+
+    out = Partial()
+    fs = load_internal_functions()
+    for name in names:
+        func = fs[name]
+        info = getattr(func, "__info__", {}) or {}
+        dn = info.get("name_in_dag", name)
+        args = [a for a in inspect.signature(func).parameters if not a.endswith("_params")]
+        ind = [a for a in args if not _GROUP_LEVEL_NAME.search(a) and not a.endswith("_id")]
+        s0 = max(info.get("start_date", datetime.date(1, 1, 1)), datetime.date(1985, 1, 1))
+        e0 = min(info.get("end_date", datetime.date(9999, 12, 31)), datetime.date(2031, 1, 1))
+        if s0 > e0:
+            continue
+        span = (e0 - s0).days
+        cand = sorted({s0, e0, s0 + datetime.timedelta(days=span // 2)})
+        out.state(("group-rule", name))
+        if not ind:
+            out.count("group_rules_without_individual_arguments")
+            out.outcome("no-individual-argument")
+            continue
+        out.count("group_rules_with_individual_arguments")
+        out.setadd("individual_arguments_of_group_rules", f"{dn}<-{','.join(ind)}")
+        for d in cand:
+            try:
+                p, _ = harness.env(d.isoformat())
+                raw = _round_and_partial_parameters_to_functions({dn: func}, p, rounding=False)[dn]
+            except Exception:  # noqa: BLE001
+                out.count("group_rule_partial_failed")
+                continue
+            args2, T = synthetic_tuples(func)
+            ann = func.__annotations__
+            for t in T:
+                try:
+                    with np.errstate(all="ignore"):
+                        v0 = raw(**dict(zip(args2, t)))
+                except Exception:  # noqa: BLE001
+                    continue
+                for a in ind:
+                    i = args2.index(a)
+                    for alt in SYN.get(ann.get(a), [0.0, 1.0, 235.85]):
+                        if alt == t[i]:
+                            continue
+                        t2 = t[:i] + (alt,) + t[i + 1:]
+                        try:
+                            with np.errstate(all="ignore"):
+                                v1 = raw(**dict(zip(args2, t2)))
+                        except Exception:  # noqa: BLE001
+                            continue
+                        out.step()
+                        if not _same_value(v0, v1):
+                            out.violation(f"node={dn}:input={a}",
+                                          {"date": d.isoformat(), "function": name, "node": dn, "individual_argument": a,
+                                           "arguments": {k: (x.item() if hasattr(x, "item") else x) for k, x in zip(args2, t)}, "alternative": alt},
+                                          f"group-level rule {name} ({dn}) on {d}: with all group-level arguments fixed, {a}={t[i]!r} gives {v0!r} "
+                                          f"but {a}={alt!r} gives {v1!r} - members of one group that differ in {a} get different values")
+                            out.outcome("depends-on-individual-argument")
+    return out.dump()
+
 
 def replay(case):
+    if "individual_argument" in case:
+        part = task_rules([case["function"]])
+        v = [x for x in part["violations"] if x[0] == f"node={case['node']}:input={case['individual_argument']}"]
+        return not v, "; ".join(x[2] for x in v[:1])
     df = popgen.frame(case["rows"])
     r = sim.sim_all(df, case["date"])
     p = Partial()
@@ -104,7 +181,14 @@ def run(tier):
                 tasks.append((d, name, items[k : k + 25]))
     for part in harness.pmap(task, harness.rotate(tasks)):
         rep.merge(part)
-    rep.bound = {"dates": dates, "households": list(popgen.LIBRARY), "deviation_bound_k": 1,
+    from _gettsim.functions_loader import load_internal_functions
+
+    gs = tuple(f"_{g}" for g in SUPPORTED_GROUPINGS)
+    grules = sorted(n for n, fn in load_internal_functions().items()
+                    if (getattr(fn, "__info__", {}) or {}).get("name_in_dag", n).endswith(gs) and not (getattr(fn, "__info__", {}) or {}).get("skip_vectorization"))
+    for part in harness.pmap(task_rules, [grules[k::32] for k in range(32)]):
+        rep.merge(part)
+    rep.bound = {"dates": dates, "households": list(popgen.LIBRARY), "deviation_bound_k": 1, "group_level_rules_all_periods": len(grules),
                  "alternatives_per_input": "reduced alphabet (3)" if thorough else "1 (farthest alternative)"}
     rep.assumptions = ["group membership is taken from the computed *_id nodes of the same run (hh_id from the data)",
                        "every individual-level input (incl. mietstufe, wohnort_ost) is varied for one member of a group at a time; _hh inputs are not "
